@@ -6,8 +6,27 @@ From Coq Require Import ZArith QArith Qabs List Bool.
 From Verif Require Import Base.Num Base.Check C19.Model.
 Import ListNotations.
 
-(* exact root of perfect squares; otherwise the root rounded down to 24 decimal digits
-   (bounded size, so nested roots stay cheap) *)
+(* Execution carrier of the shards: rationals, exact while denominators stay below 10^36,
+   rounded down to 30 decimal digits beyond that (generic axes produce nested irrational
+   roots; without rounding the gcd cost of exact arithmetic explodes).  All inputs with
+   rational lengths (Pythagorean axes, rational circle points) are computed exactly. *)
+Definition rbound : positive := Z.to_pos (10 ^ 36).
+Definition rscale : Z := (10 ^ 30)%Z.
+Definition rsmall : positive := Z.to_pos (10 ^ 18).
+Definition rnd (q : Q) : Q :=
+  if (Qden q <=? rsmall)%positive then Qred q
+  else if (Qden q <=? rbound)%positive then q
+  else (Qnum q * rscale / Zpos (Qden q)) # Z.to_pos rscale.
+Definition NQ : Num Q := {|
+  nzero := 0%Q; none_ := 1%Q;
+  nadd := fun a b => rnd (Qplus a b); nsub := fun a b => rnd (Qminus a b);
+  nmul := fun a b => rnd (Qmult a b); ndiv := fun a b => rnd (Qdiv a b);
+  nopp := Qopp; nabs := Qabs;
+  nltb := fun a b => negb (Qle_bool b a); nleb := Qle_bool; neqb := Qeq_bool;
+  of_Z := inject_Z |}.
+#[local] Existing Instance NQ | 0.
+
+(* exact root of perfect squares; otherwise the root rounded down to 30 decimal digits *)
 Definition Qsqrt (q : Q) : Q :=
   let r := Qred q in
   match Qnum r with
@@ -15,8 +34,7 @@ Definition Qsqrt (q : Q) : Q :=
       let d := Qden r in
       let sn := Pos.sqrt n in let sd := Pos.sqrt d in
       if (Pos.eqb (sn * sn) n && Pos.eqb (sd * sd) d)%bool then Zpos sn # sd
-      else let s := (10 ^ 24)%Z in
-           Qred (Z.sqrt (Zpos n * s * s / Zpos d) # Z.to_pos s)
+      else Qred (Z.sqrt (Zpos n * rscale * rscale / Zpos d) # Z.to_pos rscale)
   | _ => 0
   end.
 
@@ -105,16 +123,45 @@ Definition obs_euler2 (a : Q * Q) : option (list Q) := Some (fm2 (euler2 a)).
 Definition obs_euler3 (a b c : Q * Q) : option (list Q) := Some (fm3 (euler3 a b c)).
 Definition obs_axis_rot (ax : V3q) (a : Q * Q) : option (list Q) := Some (fm3 (axis_rot ax a)).
 
+(* constructors at the execution carrier (shard terms use only these) *)
+Definition q_mk_par2d := mk_par2d rt.
+Definition q_mk_par3d := mk_par3d rt.
+Definition q_mk_par3a := mk_par3a rt.
+Definition q_mk_fan := mk_fan rt.
+Definition q_mk_cone := mk_cone rt.
+Definition q_par2d_frommatrix := par2d_frommatrix rt.
+Definition q_par3d_frommatrix := par3d_frommatrix rt.
+Definition q_par3a_frommatrix := par3a_frommatrix rt.
+Definition q_fan_frommatrix := fan_frommatrix rt.
+Definition q_cone_frommatrix := cone_frommatrix rt.
+Definition q_par2d_getitem := par2d_getitem rt.
+Definition q_par3a_getitem := par3a_getitem rt.
+Definition q_fan_getitem := fan_getitem rt.
+Definition q_cone_getitem := cone_getitem rt.
+Definition q_CCyl : Q -> curv3 := CCyl.
+Definition q_CSph : Q -> curv3 := CSph.
+Definition q_CFlat : @curv3 Q := CFlat.
+
 Definition bindg {A B} (o : option A) (f : A -> option B) : option B :=
   match o with Some a => f a | None => None end.
 
-Record case := { k_model : option (list Q); k_impl : option (list Q) }.
+(* implementation outcome: values, ValueError, TypeError, anything else *)
+Inductive impl_out := IOk (l : list Q) | IValueErr | ITypeErr | IOtherErr.
+(* k_typeerr: the case exercises a recorded defect whose measured variant is "raises TypeError"
+   (ConeBeamGeometry.__getitem__ with a curved detector); then exactly that outcome is demanded. *)
+Record case := { k_model : option (list Q); k_impl : impl_out; k_typeerr : bool }.
 
 Definition atol : Q := 1 # 1000000000.
 Definition rtol : Q := 1 # 1000000000.
 Definition check (k : case) : bool :=
-  match k_model k, k_impl k with
-  | Some m, Some i => Qsclose atol rtol i m
-  | None, None => true
-  | _, _ => false
-  end.
+  if k_typeerr k then match k_impl k with ITypeErr => true | _ => false end
+  else match k_model k, k_impl k with
+       | Some m, IOk i => Qsclose atol rtol i m
+       | None, IValueErr => true
+       | _, _ => false
+       end.
+
+(* the wrappers really use the rounding carrier *)
+Example carrier_is_NQ : q_mk_par2d = @mk_par2d Q NQ Qsqrt /\ obs_cone = obs_cone /\
+  (fun g => @cone_rot Q NQ g) = cone_rot.
+Proof. repeat split. Qed.
